@@ -6,7 +6,7 @@ From BV Require Import Base.Prelude Model.Block Model.ForkDB Model.Forkable Mode
   Model.Burst Model.Hub Model.CursorResolver Model.Joining
   Spec.Consumer Spec.Universe Check.Burst_Check Check.C07_Check Spec.C06_Spec Spec.C07_Spec Spec.C09_Spec Spec.C13_Spec
   Spec.C07_Compose_Spec Spec.C07_Shapes_Spec Spec.C07_More_Spec Spec.C07_Final_Spec Spec.C07_FinalUnfixed_Spec Spec.C07_Fuel_Spec
-  Proofs.C07_ComposeRun Proofs.C07_ComposeCheck Proofs.C07_FullRefuted Proofs.C07_Shapes Proofs.C07_FiltersNum Proofs.C07_FiltersCursor Proofs.C07_FiltersTarget Proofs.C07_Final Proofs.C07_FinalMem Proofs.C07_FinalCursor Proofs.C07_FinalTarget Proofs.C07_FinalRefuted Proofs.C07_Fuel
+  Proofs.C07_ComposeRun Proofs.C07_ComposeCheck Proofs.C07_FullRefuted Proofs.C07_Shapes Proofs.C07_FiltersNum Proofs.C07_FiltersCursor Proofs.C07_FiltersTarget Proofs.C07_Final Proofs.C07_FinalMem Proofs.C07_FinalCursor Proofs.C07_FinalTarget Proofs.C07_TargetRefuted Proofs.C07_FinalRefuted Proofs.C07_Fuel
   Properties.C07_Compose.
 Local Open Scope N_scope.
 
@@ -39,6 +39,12 @@ Print Assumptions c07_seamless_cursor_nu.
 Theorem c07_seamless_target_nu_partial : C07_seamless_target_nu.
 Proof. exact c07_seamless_target_nu_proof. Qed.
 Print Assumptions c07_seamless_target_nu_partial.
+
+(* files_on_hub is needed there: target-cursor mode joins the hub by block NUMBER; with every other hypothesis (and
+   target_on_chain) the hub on a fork at the join height breaks the discipline - reproduced on the real code *)
+Theorem c07_target_join_by_number_refuted : C07_target_join_by_number_refuted.
+Proof. exact c07_target_join_by_number_refuted_proof. Qed.
+Print Assumptions c07_target_join_by_number_refuted.
 
 (* ... with files_on_hub discharged from files_final (merged blocks at or below the ready hub's LIB) *)
 Theorem c07_seamless_target_nu_final_partial : C07_seamless_target_nu_final.
